@@ -348,8 +348,23 @@ def monitor_c08(sc, obs):
     gouts_of = {}
     for gid, g in groups.items():
         gouts_of[gid] = g
+    idle_ref, ever_shut = {}, set()      # since when a single-slot device has been empty, from the observations alone
     for i, o in enumerate(obs):
         devs = o['devices']
+        prev_idle = dict(idle_ref)
+        for d, e in devs.items():
+            if kinds.get(d) in ('handler', 'processor'):
+                if e.get('shut'):
+                    ever_shut.add(d)
+                empty = not e.get('part') and not e.get('out')
+                if o['op'][0] == 'init':
+                    idle_ref[d] = o['now']
+                elif not empty:
+                    idle_ref.pop(d, None)
+                elif d not in idle_ref and i > 0 and o['op'][0] == 'step':
+                    idle_ref[d] = o['now']
+                elif d not in idle_ref:
+                    ever_shut.add(d)          # emptied inside a multi-event run: the instant is not observable
 
         def ok_edge(a, b, stack):
             da = devs[a]['down']
@@ -391,6 +406,56 @@ def monitor_c08(sc, obs):
                         return v
                     if kinds.get(h[0]) != 'source' and not (it['batch'] and h is it['hist']):
                         _bad(v, 'C08/history-first', 'op %d: routing history of part %d starts with %d which is not a source' % (i, it['id'], h[0]))
+                        return v
+        # among several parallel single-slot devices able to take a part, the one idle longest receives it: a direct hand-over from a
+        # device u to b while a sibling a of b (also directly downstream of u) was empty, operational, unblocked, needed no resources and
+        # had been waiting for a part longer than b
+        if i > 0 and o['op'][0] == 'step' and o['st'] == 0:
+            pd = obs[i - 1]['devices']
+
+            def lanes(xs, seen=()):
+                # the single-slot devices reachable from xs directly or through plain (unblocked) flow controllers
+                res = []
+                for x in xs:
+                    if x in seen or x not in pd:
+                        continue
+                    if kinds.get(x) == 'pfc':
+                        if not pd[x]['block']:
+                            res += lanes(pd[x].get('down', []), seen + (x,))
+                    elif kinds.get(x) in ('handler', 'processor'):
+                        res.append(x)
+                return res
+            for r in o['data']:
+                b = r[1]
+                if r[0] != 6 or kinds.get(b) not in ('handler', 'processor') or b not in pd or not devs[b].get('part'):
+                    continue
+                h = devs[b]['part']['hist']
+                if len(h) < 2 or h[-1] != b or pd[b].get('wait_since') is None:
+                    continue
+                k = len(h) - 2
+                while k > 0 and kinds.get(h[k]) == 'pfc':
+                    k -= 1
+                u = h[k]
+                if u not in pd or kinds.get(u) == 'pfc':
+                    continue
+                cands = lanes(pd[u].get('down', []))
+                if b not in cands:
+                    continue
+                for a in cands:
+                    ea = pd[a]
+                    if a == b or ea.get('wait_since') is None:
+                        continue
+                    free = not ea.get('part') and not ea.get('out') and not ea['block'] and not ea.get('shut') and not ea.get('req') and not ents[a].get('on_receive')
+                    if free and ea['wait_since'] < pd[b]['wait_since'] and not devs[a].get('part'):
+                        _bad(v, 'C08/longest-idle', 'op %d (t=%d): part %d went from %d to %d (idle since %d) although %d had been idle since %d and was able to take it' % (
+                            i, o['now'], r[4], u, b, pd[b]['wait_since'], a, ea['wait_since']))
+                        return v
+                    # the same with the idle times reconstructed from the observations (a device that has never had a part has been
+                    # idle since the start, whatever it reports)
+                    ia, ib = prev_idle.get(a), prev_idle.get(b)
+                    if free and ia is not None and ib is not None and ia < ib and a not in ever_shut and b not in ever_shut and not devs[a].get('part'):
+                        _bad(v, 'C08/longest-idle', 'op %d (t=%d): part %d went from %d to %d (empty since %d) although %d had been empty since %d and was able to take it' % (
+                            i, o['now'], r[4], u, b, ib, a, ia))
                         return v
         # gate predicates: a part whose history contains a gate must satisfy it (for state-independent deciders: parity of id);
         # with batches the gate judged the batch object, not its parts
@@ -595,6 +660,17 @@ def monitor_c16(sc, obs):
                 if r[0] == 3 and r[4] in prev['devices']:
                     t = r[4]
                     due[r[1]] += ents[t].get('wo_cost', 0) + (ents[t].get('wo_dur', 0) if prev['devices'][t]['shut'] else 0)
+            # a source's value drops by the value of each part it supplies, as it is at the hand-over (the generator's value: nothing
+            # has processed the part yet); sources with a constant item size only
+            sup = Counter(r[1] for r in o['data'] if r[0] == 10)
+            for d, n in sup.items():
+                en = ents.get(d, {})
+                if en.get('kind') == 'source' and not en.get('gen_pattern') and d in prev['devices']:
+                    per = en['gen_value'] * max(en.get('gen_batch', 0), 1)
+                    dv = o['devices'][d]['dev_value'] - prev['devices'][d]['dev_value']
+                    if dv != -per * n:
+                        _bad(v, 'C16/source-value', 'op %d (t=%d): source %d supplied %d item(s) worth %d/8 each at the hand-over, its value changed by %d/8' % (
+                            i, o['now'], d, n, per, dv))
             for m, e in o['maints'].items():
                 if m in prev['maints'] and e['value'] - prev['maints'][m]['value'] != -due[m]:
                     _bad(v, 'C16/work-order-cost', 'op %d (t=%d): maintainer %d started orders costing %d/8 in all, its value changed by %d/8' % (
